@@ -1,7 +1,7 @@
 (* Properties/C09.v — Hedge: bounded attempts, spaced by the delay, one winner, losers cancelled.
    [hedge_run] is the virtual-time mirror of hedgepolicy/hedgeexecutor.go (Model/Hedge.v). *)
 From FS Require Import Model.Hedge Proofs.HedgeProofs Corr.C09.
-From FS Require Import Model.Exec Proofs.ExecHedgeProofs Corr.C09x.
+From FS Require Import Model.Exec Proofs.ExecHedgeProofs Proofs.ExecHedgeWinner Corr.C09x.
 
 (* For every maxHedges, delay function, cancel conditions, assignment of durations/outcomes/cooperativeness
    to the attempts and cancellation instant of the caller's context: at most maxHedges+1 attempts are
@@ -73,6 +73,20 @@ Theorem C09_in_stack_spacing : forall cfg pos total, 0 <= hg_delay cfg ->
 Proof. intros cfg pos total Hd fuel c started w. exact (hedge_loop_spacing cfg pos total Hd fuel c 0 started w). Qed.
 Print Assumptions C09_in_stack_spacing.
 
+(* the caller of a hedged run -- whatever policy sits around it -- receives a result actually produced by one of the
+   attempts: unless the run is cancelled from outside (then it reports that cancellation) or is schedule-dependent, the
+   result handed on is the outcome of a function return recorded during this run ([pre] is what the run added to the
+   trace), and that outcome matches the cancel conditions or was taken only after maxHedges+1 returns *)
+Theorem C09_in_stack_result_produced_by_an_attempt : forall pos total cfg c w,
+  let r := fst (hedge_layer pos total cfg c w) in
+  let w' := snd (hedge_layer pos total cfg c w) in
+  w_oof w' = true
+  \/ is_canceled w' c = Some r
+  \/ exists pre o q, keys w' = pre ++ keys w /\ r = all_true o /\ In (KFnEnd, q, o) pre
+       /\ (is_abortable (hg_cancel cfg) o = true \/ (S (hg_max cfg) <= cntE pre)%nat).
+Proof. exact hedge_layer_winner. Qed.
+Print Assumptions C09_in_stack_result_produced_by_an_attempt.
+
 (* premises are satisfiable: retry around a hedge, first attempt slow, the hedge wins *)
 Example C09_in_stack_example :
   let hc := {| hg_max := 1; hg_delay := 1000; hg_cancel := build_hedge_cancel [] |} in
@@ -80,5 +94,7 @@ Example C09_in_stack_example :
                   {| fs_out := (2, None); fs_dur := 700; fs_coop := None; fs_lag := 0 |} ] in
   let w := fresh_world 0 None CKNone [] [] [] [] script in
   let '(r, w1, ts) := hedge_loop 3 hc 0 1 0 0 [] w in
-  ts = [0; 1000] /\ w_hedges w1 = 1 /\ w_attempts w1 = 2.
-Proof. vm_compute. auto. Qed.
+  ts = [0; 1000] /\ w_hedges w1 = 1 /\ w_attempts w1 = 2
+  (* the run is neither schedule-dependent nor cancelled, and hands on the hedge's result *)
+  /\ w_oof w1 = false /\ is_canceled w1 0 = None /\ pr_res r = 2.
+Proof. vm_compute. auto 10. Qed.
